@@ -3,6 +3,7 @@ import Ark.Proofs.Rejects
 import Ark.Proofs.GenBridge.BookArchetype
 import Ark.Props.C04World
 import Ark.Props.C04Hist
+import Ark.Props.C06Rel
 
 namespace Ark.Props.C04
 open Ark
@@ -195,5 +196,27 @@ theorem rel_frame_del : type_of% @Ark.Props.C04Hist.frame_del := @Ark.Props.C04H
 
 /-- the state reached does not depend on the access path of each operation -/
 theorem rel_any_access_path : type_of% @Ark.Props.C04Hist.any_access_path := @Ark.Props.C04Hist.any_access_path
+
+
+/-! ### Several targets removed in one batch (Props/C06Rel) -/
+
+/-- **removing targets in a batch never fails and never corrupts**: `RemoveEntities` over any selection, also when several relation targets — of the same table, of each other, together with their children — are among the removed: the world invariant is kept, every other entity keeps its components and values, and its targets are unchanged except that a removed target reads as the zero entity (the D2 case, for all worlds) -/
+theorem batch_removeEntities_rel_spec : type_of% @Ark.Props.C06Rel.removeEntities_rel_spec := @Ark.Props.C06Rel.removeEntities_rel_spec
+
+/-- one iteration of the clean-up while several dead targets are pending: the rows move to the table with EVERY dead target replaced by the zero entity -/
+theorem batch_cleanTable_step_pending : type_of% @Ark.Props.C06Rel.cleanTable_step_pending := @Ark.Props.C06Rel.cleanTable_step_pending
+
+/-- cleanupArchetypes for one of several pending dead targets never panics and restores the full relation index -/
+theorem batch_cleanupArchetypes_pending : type_of% @Ark.Props.C06Rel.cleanupArchetypes_pending := @Ark.Props.C06Rel.cleanupArchetypes_pending
+
+/-- the clean-up loop over all pending targets never panics and leaves nothing pending -/
+theorem batch_cleanup_loop_spec : type_of% @Ark.Props.C06Rel.cleanup_loop_spec := @Ark.Props.C06Rel.cleanup_loop_spec
+
+/-- removing the same entities one by one, in any order, gives the same targets for every entity -/
+theorem batch_removeEntities_rel_any_order : type_of% @Ark.Props.C06Rel.removeEntities_rel_any_order := @Ark.Props.C06Rel.removeEntities_rel_any_order
+
+/-- … at every state a history reaches -/
+theorem batch_removeEntities_after_every_history : type_of% @Ark.Props.C06Rel.removeEntities_after_every_history := @Ark.Props.C06Rel.removeEntities_after_every_history
+
 
 end Ark.Props.C04
